@@ -255,7 +255,7 @@ fn bool_check(ctx: &Ctx, base: u64) -> u64 {
             ctx.violation(base + n, "bool-keyword", &format!("`{}` as bool = {:?}, expected {:?}", esc(c), g, want), json!({"kind": "bool-chr", "text": esc(c)}));
         }
     }
-    for lit in ["1", "0", "00", "0.0", "-0", "+1", "0.4", "0.6", "-0.6", "-0.4", "2", "255", "1e30", "1E-30", "-1e30", "1e400", "1e-400", ".4999", "0.51", "-2.5", "+0E5", "9223372036854775808", "-9223372036854775809"] {
+    for lit in ["1", "0", "00", "0.0", "-0", "+1", "0.4", "0.6", "-0.6", "-0.4", "2", "255", "1e30", "1E-30", "-1e30", "1e400", "1e-400", ".4999", "0.49999999", "4.9999999e-1", "-.4999999999999", "0.50000001", "0.51", "-2.5", "+0E5", "9223372036854775808", "-9223372036854775809"] {
         n += 1;
         let g = bool::try_from(Token::DecimalNumericProgramData(lit.as_bytes())).map_err(|e| e.get_code());
         if let Some((k, w)) = crate::props::c07::judge_bool(lit.as_bytes(), &g) {
